@@ -30,7 +30,7 @@ RULE = ("case = (byte stream, way of cutting it into arrivals) on a TCP or WebSo
         "length, code, extended TKL bytes; WS: the 2..14 header bytes or the last bytes of the "
         "handshake) or an arrival fills the 1472-byte read buffer; distinct = distinct case lines")
 
-WRAPS = ["coap_socket_read", "coap_socket_write", "select"]
+WRAPS = ["coap_socket_read", "coap_socket_write", "select", "connect"]
 PREDICT_ALWAYS = {0, 226, 227}
 PLAIN_ITEMS = {"X", "C", "S", "OOB", "M:UNDEF", "FUEL", "BROKEN"}
 
@@ -56,13 +56,23 @@ def item_opts(it):
     return [int(x.split(":")[0]) for x in m.group(1).split(",")]
 
 
-def predictable(it):
+def token_len(it):
+    m = re.search(r" k=(\S+) o=", it)
+    if not m or m.group(1) == "-":
+        return 0
+    k = m.group(1)
+    return int(k[1:].split(":")[0]) if k[0] == "#" else len(k) // 2
+
+
+def predictable(it, client=False):
     """does this parsed message reach a handler of the driver for sure? None = cannot say"""
     if it in PLAIN_ITEMS:
         return True
     c = item_code(it)
     if c is None:
         return None
+    if client and 1 <= c <= 31 and token_len(it) > 8:
+        return None                  # client session: longer request tokens are refused (4.00 / RST)
     if c in PREDICT_ALWAYS:
         return True
     if c == 225:
@@ -77,7 +87,7 @@ def predictable(it):
     return None
 
 
-def expected_from_model(model_line):
+def expected_from_model(model_line, client=False):
     """-> (items the driver must have logged, closed) or None when the model output contains a
     message whose route through coap_dispatch this check does not predict"""
     so = split_out(model_line)
@@ -86,7 +96,7 @@ def expected_from_model(model_line):
     items, closed, _ = so
     out = []
     for it in items:
-        p = predictable(it)
+        p = predictable(it, client)
         if p is None:
             return None
         if p:
@@ -263,6 +273,35 @@ def build_ws_cases(run, r):
     return cs
 
 
+def build_wsc_cases(run, r):
+    """WebSocket client session: the server's handshake answer and unmasked frames"""
+    cs = Cases("wsc")
+    quick = run.tier == "quick"
+    canon = (gen_stream.WSC_FIRST + b"\r\n" + b"\r\n".join(gen_stream.WSC_LINES) + b"\r\n\r\n", "ok")
+    for i in range(6 if quick else 30):
+        stream, meta = gen_stream.gen_wsc_stream(r, hs=canon, small=True)
+        n, h = len(stream), meta["hslen"]
+        cuts = [(t, "exh1", 0) for t in gen_stream.exhaustive_cuts(n, 1)]
+        tail = list(range(max(1, h - 3), n))
+        if len(tail) <= (30 if quick else 60):
+            for a, b in itertools.combinations(tail, 2):
+                cuts.append((gen_stream.cuts_to_token([a, b], n), "exh2", 0))
+        cuts.append(("x1", "bytewise", 0))
+        cs.add(0, stream, cuts, meta)
+    for i in range(300 if quick else 5000):
+        stream, meta = gen_stream.gen_wsc_stream(r)
+        cuts, seen = [], set()
+        for _ in range(r.choice([3, 4, 5])):
+            tok, kind = gen_stream.random_cuts(r, len(stream), meta["hot"])
+            if tok not in seen and tok != "-":
+                seen.add(tok)
+                cuts.append((tok, kind, 0))
+        if r.random() < 0.3:
+            cuts.append(("x%d" % r.choice([5, 13, 14, 15]), "fixed", 0))
+        cs.add(0, stream, cuts, meta)
+    return cs
+
+
 def ws_classify(stream, meta, pts):
     hot = set(meta.get("hot", []))
     delivered = bool(meta.get("expect") and meta["expect"][0])
@@ -326,12 +365,33 @@ def shrink(par, stream, pts, fails):
     return pts
 
 
-def evaluate(run, proto, cs, model, drv, stats):
+def evaluate(run, proto, cs, model, drv, stats, drv_san=None):
     cmd = cs.cmd
+    stats["oracle_reported"] = stats["frames_reported"] = stats["tie_reported"] = 0   # budget per protocol
     lines, idx = cs.lines()
     om = stream_util.run_cases(model, lines)
     oc = stream_util.run_cases(drv, lines)
+    if drv_san:
+        # sanitizer build (ASan + UBSan incl. array bounds) of library and driver: same cases, the
+        # results must be those of the plain build and nothing may be reported
+        osan = stream_util.run_cases(drv_san, lines, timeout=300, per_case_timeout=30,
+                                     env={"ASAN_OPTIONS": "detect_leaks=0:abort_on_error=1",
+                                          "UBSAN_OPTIONS": "halt_on_error=1"})
+        nsan = 0
+        for i, (a, b) in enumerate(zip(oc, osan)):
+            if b == "<not run>" or oracle_view(a) == oracle_view(b):
+                continue
+            nsan += 1
+            if nsan <= 2:
+                run.violation("sanitizer build of the %s receive path differs from the plain build or reports an "
+                              "error: %s" % (proto, b[:120]),
+                              "case: %s\nplain build: %s\nsanitizer build: %s\n" % (lines[i], a, b),
+                              tag="%ssan%d" % (proto, nsan))
+        stats["san_cases"] = stats.get("san_cases", 0) + len(lines)
+        stats["san_diffs"] = stats.get("san_diffs", 0) + nsan
     what_fn = "coap_read_session" if proto == "tcp" else "coap_ws_read / coap_read_session"
+    if proto == "wsc":
+        what_fn += " (client session)"
     bad = [i for i, o in enumerate(oc) if o == "HANG" or o.startswith("CRASH")]
     stats["crashes"] += len(bad)
     for i in bad[:2]:
@@ -379,8 +439,8 @@ def evaluate(run, proto, cs, model, drv, stats):
         if proto == "tcp":
             run.hist("tcp_mtu", "default" if par == 0 else "small" if par < 2000 else "large")
         else:
-            run.hist("ws_interleaved", cpar & 1)
-            run.hist("ws_handshake", meta.get("hs", "?"))
+            run.hist(proto + "_interleaved", cpar & 1)
+            run.hist(proto + "_handshake", meta.get("hs", "?"))
         if li % 1500 == 3 or ckind == "corpus":
             run.sample({"case": lines[li][:160], "impl": co[:200], "model": mo[:160]}, limit=8)
         # ---- implementation-only oracle (a): this chunking == the single-arrival run
@@ -397,7 +457,7 @@ def evaluate(run, proto, cs, model, drv, stats):
                 what = ("%s session delivers different messages for two segmentations of one stream "
                         "(%d bytes, arrivals %s%s vs one arrival): %s  vs  %s"
                         % (proto.upper(), len(stream), stok,
-                           " with traffic of another connection in between" if proto == "ws" and cpar & 1 else "",
+                           " with traffic of another connection in between" if proto != "tcp" and cpar & 1 else "",
                            so1[0][:4] if so1 else outs[1][:80], so0[0][:4] if so0 else outs[0][:80]))
                 run.violation(what,
                               "case: %s %d %s %s\nreference: %s %d %s -\n"
@@ -410,11 +470,11 @@ def evaluate(run, proto, cs, model, drv, stats):
         # order (CSM has no handler), the close comes exactly when the stream asks for it
         so = split_out(co)
         ex = meta.get("expect")
-        if ex is not None and so is not None and (proto == "ws" or par == 0 or meta["tail"].startswith("capfit")):
+        if ex is not None and so is not None and (proto != "tcp" or par == 0 or meta["tail"].startswith("capfit")):
             want = [c for c in ex[0] if c != 225]
             got = [item_code(it) for it in so[0] if it.startswith("M:")]
             okc = True
-            if proto == "ws":
+            if proto != "tcp":
                 okc = (("C" in so[0]) == bool(ex[2])) and "S" not in so[0]
             if got != want or so[1] != str(ex[1]) or (("X" in so[0]) != bool(ex[1])) or not okc:
                 stats["frames"] += 1
@@ -427,7 +487,7 @@ def evaluate(run, proto, cs, model, drv, stats):
                                   "implementation: %s\nmodel (proved reader): %s\n" % (lines[li], ex[0], ex[1], co, mo),
                                   tag="%sframes%d" % (proto, stats["frames_reported"]))
         # ---- tie: model vs implementation
-        exp = expected_from_model(mo)
+        exp = expected_from_model(mo, client=(proto == "wsc"))
         if so is None:
             stats["tie_bad"] += 1
             if stats["tie_reported"] < 2:
@@ -490,6 +550,8 @@ def main(run):
     run.prove()
     model = vlib.build_model()
     drv = vlib.build_driver("h_stream", ["h_stream.c"], wraps=WRAPS)
+    drv_san = vlib.build_driver("h_stream", ["h_stream.c"], variant="asan", wraps=WRAPS) \
+        if run.tier == "thorough" else None
     r = tie.rng_for(run, "c05")
     replay = getattr(run, "replay", None)
     if not replay:
@@ -498,7 +560,8 @@ def main(run):
                             "tie_reported", "tie_skipped")}
     ngroups = 0
     ncorpus = 0
-    for proto, cmds, build in (("tcp", ("tcp", "tcp0"), build_tcp_cases), ("ws", ("ws", "ws0"), build_ws_cases)):
+    for proto, cmds, build in (("tcp", ("tcp", "tcp0"), build_tcp_cases), ("ws", ("ws", "ws0"), build_ws_cases),
+                               ("wsc", ("wsc", "wsc0"), build_wsc_cases)):
         cs = Cases(proto)
         for par, stream, tok in corpus_cases(cmds, replay):
             cs.add(par if proto == "tcp" else 0, stream, [(tok, "corpus", par)],
@@ -507,13 +570,24 @@ def main(run):
         if not replay:
             cs.groups.extend(build(run, r).groups)
         if cs.groups:
-            ngroups += evaluate(run, proto, cs, model, drv, stats)
+            ngroups += evaluate(run, proto, cs, model, drv, stats, drv_san)
     stream_util.cleanup_sockets()
+    if run.tier == "thorough" and not replay:
+        # independent re-check of the compiled proofs (coqchk: kernel only, reports axioms)
+        rc, out = vlib.sh(["coqchk", "-silent", "-o", "-Q", ".", "LibcoapV", "LibcoapV.Properties_C05"],
+                          cwd=vlib.COQ, timeout=1800, check=False)
+        ok = rc == 0 and "* Axioms: <none>" in out
+        run.cov["coqchk"] = "ok, axioms: none" if ok else out[-600:]
+        if not ok:
+            run.violation("coqchk does not accept Properties_C05.vo (or finds axioms)", out[-4000:],
+                          tag="coqchk", no_input=True)
     run.cov["driver_crashes"] = stats["crashes"]
     run.cov["oracle_failures"] = stats["oracle"]
     run.cov["framing_oracle_failures"] = stats["frames"]
     run.cov["tie_compared"] = stats["tie"]
     run.cov["tie_disagreements"] = stats["tie_bad"]
     run.cov["tie_not_predicted"] = stats["tie_skipped"]
+    run.cov["sanitizer_cases"] = stats.get("san_cases", 0)
+    run.cov["sanitizer_differences"] = stats.get("san_diffs", 0)
     run.cov["corpus_cases"] = ncorpus
     run.cov["stream_groups"] = ngroups
